@@ -9,6 +9,10 @@ static const size_t PAGE = 4096;
 struct S4 { std::uint32_t v; };
 struct S64 { unsigned char b[64]; };
 struct S24 { unsigned char b[24]; };
+struct S40 { unsigned char b[40]; };
+struct S48 { unsigned char b[48]; };
+struct S65 { unsigned char b[65]; };
+struct S200 { unsigned char b[200]; };
 
 static unsigned char* ro_map;     // [NONE][RO RO][NONE]
 static unsigned char* rw_map;     // [NONE][RW RW][NONE]
@@ -75,13 +79,23 @@ static void run_fn(const Fn& fn) {
 #endif
     const size_t ns[] = {0, 1, 2, 31, 32, 33, 63, 64, 65, 127, 128, 129, 255, 4095, 4096, 4097, 3 * 4096};
     uint32_t k = 0;
+    unsigned hangs = 0;
+    static unsigned total_hangs = 0;
     for (auto& pp : ptrs) for (size_t n : ns) {
+        if (hangs >= 2 || (hangs >= 1 && total_hangs > 6)) break;   // a few witnesses are enough; every further one costs its full watchdog budget
         size_t count = fn.elem ? (n + fn.elem - 1) / fn.elem : n;
         if (fn.elem && ((uintptr_t)pp.first % (fn.elem >= 8 ? 1 : 1)) != 0) {}
         uint32_t cls = (uint32_t)(hash_str(pp.second) % 200) + 1;
         volatile bool ok = false;
-        if (guarded_call([&]() { fn.f(pp.first, count); })) ok = true;
-        else {
+        cpu_watchdog(3);    // 3 s of CPU time for a call that takes well under a millisecond (at most 76800 prefetch instructions)
+        bool done = guarded_call([&]() { fn.f(pp.first, count); });
+        cell_watchdog(true);
+        if (done) ok = true;
+        else if (trap().sig == SIGVTALRM) {
+            char in[160]; std::snprintf(in, sizeof in, "place=%s,ptr_off=%u,n=%zu", pp.second, (unsigned)((uintptr_t)pp.first & 63), count);
+            viol("hang", cls, -1, in, "no return within 3 s of CPU time", "returns");
+            ++hangs; ++total_hangs;
+        } else {
             TrapCtx& t = trap(); c.traps++;
             char b[96]; std::snprintf(b, sizeof b, "%s@%s", signame(t.sig), where(t.addr));
             char in[160]; std::snprintf(in, sizeof in, "place=%s,ptr_off=%u,n=%zu,fault_in=%s", pp.second, (unsigned)((uintptr_t)pp.first & 63), count, where(t.addr));
@@ -110,10 +124,12 @@ int main(int argc, char** argv) {
         {"prefetch_write<L1>", &wr_untyped<L1_CACHE>, 0}, {"prefetch_write<L2>", &wr_untyped<L2_CACHE>, 0}, {"prefetch_write<L3>", &wr_untyped<L3_CACHE>, 0},
         {"prefetch_read<default>", &rd_default, 0}, {"prefetch_write<default>", &wr_default, 0},
         {"prefetch_read<default,n=default>", &rd_default1, 0}, {"prefetch_write<default,n=default>", &wr_default1, 0},
-        {"prefetch_read<L1,uint8>", &rd_typed<L1_CACHE, std::uint8_t>, 1}, {"prefetch_read<L2,S4>", &rd_typed<L2_CACHE, S4>, 4}, {"prefetch_read<L3,S64>", &rd_typed<L3_CACHE, S64>, 64},
-        {"prefetch_read<L1,S24>", &rd_typed<L1_CACHE, S24>, 24}, {"prefetch_read<L3,uint8>", &rd_typed<L3_CACHE, std::uint8_t>, 1}, {"prefetch_read<L2,S64>", &rd_typed<L2_CACHE, S64>, 64},
-        {"prefetch_write<L1,uint8>", &wr_typed<L1_CACHE, std::uint8_t>, 1}, {"prefetch_write<L2,S4>", &wr_typed<L2_CACHE, S4>, 4}, {"prefetch_write<L3,S64>", &wr_typed<L3_CACHE, S64>, 64},
-        {"prefetch_write<L1,S24>", &wr_typed<L1_CACHE, S24>, 24}, {"prefetch_write<L3,S4>", &wr_typed<L3_CACHE, S4>, 4}, {"prefetch_write<L2,uint8>", &wr_typed<L2_CACHE, std::uint8_t>, 1},
+        {"prefetch_read<L1,uint8>", &rd_typed<L1_CACHE, std::uint8_t>, 1}, {"prefetch_read<L1,S4>", &rd_typed<L1_CACHE, S4>, 4}, {"prefetch_read<L1,S24>", &rd_typed<L1_CACHE, S24>, 24}, {"prefetch_read<L1,S40>", &rd_typed<L1_CACHE, S40>, 40}, {"prefetch_read<L1,S48>", &rd_typed<L1_CACHE, S48>, 48}, {"prefetch_read<L1,S64>", &rd_typed<L1_CACHE, S64>, 64}, {"prefetch_read<L1,S65>", &rd_typed<L1_CACHE, S65>, 65}, {"prefetch_read<L1,S200>", &rd_typed<L1_CACHE, S200>, 200},
+        {"prefetch_read<L2,uint8>", &rd_typed<L2_CACHE, std::uint8_t>, 1}, {"prefetch_read<L2,S4>", &rd_typed<L2_CACHE, S4>, 4}, {"prefetch_read<L2,S24>", &rd_typed<L2_CACHE, S24>, 24}, {"prefetch_read<L2,S40>", &rd_typed<L2_CACHE, S40>, 40}, {"prefetch_read<L2,S48>", &rd_typed<L2_CACHE, S48>, 48}, {"prefetch_read<L2,S64>", &rd_typed<L2_CACHE, S64>, 64}, {"prefetch_read<L2,S65>", &rd_typed<L2_CACHE, S65>, 65}, {"prefetch_read<L2,S200>", &rd_typed<L2_CACHE, S200>, 200},
+        {"prefetch_read<L3,uint8>", &rd_typed<L3_CACHE, std::uint8_t>, 1}, {"prefetch_read<L3,S4>", &rd_typed<L3_CACHE, S4>, 4}, {"prefetch_read<L3,S24>", &rd_typed<L3_CACHE, S24>, 24}, {"prefetch_read<L3,S40>", &rd_typed<L3_CACHE, S40>, 40}, {"prefetch_read<L3,S48>", &rd_typed<L3_CACHE, S48>, 48}, {"prefetch_read<L3,S64>", &rd_typed<L3_CACHE, S64>, 64}, {"prefetch_read<L3,S65>", &rd_typed<L3_CACHE, S65>, 65}, {"prefetch_read<L3,S200>", &rd_typed<L3_CACHE, S200>, 200},
+        {"prefetch_write<L1,uint8>", &wr_typed<L1_CACHE, std::uint8_t>, 1}, {"prefetch_write<L1,S4>", &wr_typed<L1_CACHE, S4>, 4}, {"prefetch_write<L1,S24>", &wr_typed<L1_CACHE, S24>, 24}, {"prefetch_write<L1,S40>", &wr_typed<L1_CACHE, S40>, 40}, {"prefetch_write<L1,S48>", &wr_typed<L1_CACHE, S48>, 48}, {"prefetch_write<L1,S64>", &wr_typed<L1_CACHE, S64>, 64}, {"prefetch_write<L1,S65>", &wr_typed<L1_CACHE, S65>, 65}, {"prefetch_write<L1,S200>", &wr_typed<L1_CACHE, S200>, 200},
+        {"prefetch_write<L2,uint8>", &wr_typed<L2_CACHE, std::uint8_t>, 1}, {"prefetch_write<L2,S4>", &wr_typed<L2_CACHE, S4>, 4}, {"prefetch_write<L2,S24>", &wr_typed<L2_CACHE, S24>, 24}, {"prefetch_write<L2,S40>", &wr_typed<L2_CACHE, S40>, 40}, {"prefetch_write<L2,S48>", &wr_typed<L2_CACHE, S48>, 48}, {"prefetch_write<L2,S64>", &wr_typed<L2_CACHE, S64>, 64}, {"prefetch_write<L2,S65>", &wr_typed<L2_CACHE, S65>, 65}, {"prefetch_write<L2,S200>", &wr_typed<L2_CACHE, S200>, 200},
+        {"prefetch_write<L3,uint8>", &wr_typed<L3_CACHE, std::uint8_t>, 1}, {"prefetch_write<L3,S4>", &wr_typed<L3_CACHE, S4>, 4}, {"prefetch_write<L3,S24>", &wr_typed<L3_CACHE, S24>, 24}, {"prefetch_write<L3,S40>", &wr_typed<L3_CACHE, S40>, 40}, {"prefetch_write<L3,S48>", &wr_typed<L3_CACHE, S48>, 48}, {"prefetch_write<L3,S64>", &wr_typed<L3_CACHE, S64>, 64}, {"prefetch_write<L3,S65>", &wr_typed<L3_CACHE, S65>, 65}, {"prefetch_write<L3,S200>", &wr_typed<L3_CACHE, S200>, 200},
     };
     for (const Fn& f : fns) run_fn(f);
     return finish();
